@@ -11,10 +11,12 @@ import TraitsVerif.Model.DslGrammar
 import TraitsVerif.Model.DslDenote
 import TraitsVerif.Model.DslMatch
 import TraitsVerif.Generated.Grammar
+import TraitsVerif.Generated.ParserTables
 import TraitsVerif.Lemmas.DslLex
 import TraitsVerif.Lemmas.DslGrammar
 import TraitsVerif.Lemmas.DslParse
 import TraitsVerif.Lemmas.DslCompile
+import TraitsVerif.Lemmas.DslPy
 namespace TraitsVerif.Props.C15
 open TraitsVerif TraitsVerif.Model.Dsl
 
@@ -27,6 +29,25 @@ changes `Generated.grammarRules` and this stops checking. -/
 theorem C15_grammar_is_modelled :
     Generated.grammarRules = grammar ∧ Generated.grammarTerminals = grammarTerminals ∧
     Generated.grammarImports = grammarImports ∧ Generated.grammarIgnore = grammarIgnore := by
+  decide
+
+/-- What actually runs is `_generated_parser.py`, generated from the .lark file
+by `etstool.py generate-parser`; it carries its own copy of the grammar (the
+DATA / MEMO literals).  That embedded copy — read from the working tree on every
+run by harness/translate/parsertables.py — IS the grammar of `_dsl_grammar.lark`:
+the same rules with the same alternatives in the same order and the same `?`
+(expand1) flags, each literal a filtered-out string terminal, NAME the same
+regex and kept in the tree, Lark's `common.WS` the only other regex terminal and
+the only ignored one, all priorities 0, no flags, start symbol `start`, an LALR
+parser with the contextual lexer.  (Not covered: the LALR state table computed
+from these rules — tied by the exhaustive short-string correspondence.) -/
+theorem C15_parser_tables_are_grammar :
+    Generated.parserRules = Generated.grammarRules ∧
+    Generated.parserRegexTerminals = ("WS", "(?:[ \t\x0c\r\n])+") :: Generated.grammarTerminals ∧
+    Generated.parserLiteralTerminals.map (·.2) = ["items", "+", "*", ".", ":", "[", "]", ","] ∧
+    Generated.parserIgnore = Generated.grammarIgnore ∧
+    Generated.parserStart = ["start"] ∧
+    Generated.parserKind = ("lalr", "contextual", false, false, 0) := by
   decide
 
 /-- The derivation trees of the model (`Cst` with a `shape`) are exactly the
@@ -359,5 +380,50 @@ example : NoDupBranches (.ser (.ser (.trait ['f']) .quiet
   unfold NoDupBranches; decide
 example : (compileChars (fun _ => false) "a,a".toList).map (·.length) = .ok 2 := by decide
 example : (compileChars (fun _ => false) "[a,a].b".toList).map (·.length) = .ok 2 := by decide
+
+/-! ## the compiler model is the source
+
+`Generated.dslProg` is the program that harness/translate/dslprog.py reads, on
+every run, from the working tree's parsing.py (the `_handle_*` functions, the
+dispatch dict of `_handle_tree`, `parse`, `compile_str`), expression.py (`then`,
+`__or__`, `trait` / `metadata` / `match` / `anytrait` / `*_items`, the three
+expression classes' `__init__` and `_create_graphs`, `_as_graphs`, `compile_expr`),
+_observer_graph.py (`ObserverGraph.__init__`) and the observer / filter classes'
+`__init__`; `DslPy.interp…` is its interpretation (Model/DslPy.lean). -/
+
+/-- `_handle_tree(tree, notify)` of the source, run on the Lark tree of ANY
+derivation tree (in a terminal position or not) with any notify flag, returns
+the expression `toExpr` of the model — so every theorem above about `toExpr`
+(notify law, `items`, brackets) is a theorem about the interpreted parsing.py. -/
+theorem C15_toExpr_is_source (c : Cst) (t notify : Bool) :
+    Model.DslPy.interpTree Generated.dslProg t c notify = .ok (.expr (toExpr c notify)) :=
+  Model.DslPy.interpTree_eq c t notify
+
+/-- `e._create_graphs(branches)` of the source (with `ObserverGraph.__init__`'s
+uniqueness test and the de-duplication of fix 4a0994c) is `create` of the model,
+for every expression and every list of branches. -/
+theorem C15_create_is_source (e : Expr) (br : Forest) :
+    Model.DslPy.interpCreate Generated.dslProg e br = Model.DslPy.liftRes .forest (create e br) :=
+  Model.DslPy.interpCreate_eq e br
+
+/-- `compile_expr(expr)` = `expr._as_graphs()` = `_create_graphs(branches=[])`. -/
+theorem C15_compile_expr_is_source (e : Expr) :
+    Model.DslPy.interpCompileExpr Generated.dslProg e = Model.DslPy.liftRes .forest (compileExpr e) :=
+  Model.DslPy.interpCompileExpr_eq e
+
+/-- **compile ≡ source**: `compile_str(text)` of the source — `parse` (LarkError
+→ ValueError, `_handle_tree(tree, notify=True)`), then `compile_expr` — with the
+model's parser standing for `_LARK_PARSER`, is `compileChars` of the model, for
+every text.  With `C15_meaning`: the interpreted source denotes the documented paths. -/
+theorem C15_compile_is_source (uw : Char → Bool) (s : List Char) :
+    Model.DslPy.interpCompileStr Generated.dslProg uw s = Model.DslPy.liftRes .forest (compileChars uw s) :=
+  Model.DslPy.interpCompileStr_eq uw s
+
+/-- the interpreted source on concrete texts: rejected by the parser; duplicate branch kept once -/
+example : Model.DslPy.interpCompileStr Generated.dslProg (fun _ => false) "a.[b,b]:".toList =
+    .error (.exc "ValueError") := by kernel_rfl
+example : Model.DslPy.interpCompileStr Generated.dslProg (fun _ => false) "x.[a,a]".toList =
+    .ok (.forest (.cons (.named ['x'] true false) (.cons (.named ['a'] true false) .nil .nil) .nil)) := by
+  kernel_rfl
 
 end TraitsVerif.Props.C15
